@@ -1,5 +1,5 @@
 """Helpers for the rules over the terminal client (zvt_feig_terminal)."""
-from mirlite import callee, op_place, ty_str
+from mirlite import callee, op_place, ty_str, feasible_reach
 from flow import Tracer
 from expr import Ex, show, walk, strip_ref
 
@@ -86,19 +86,10 @@ class Fn:
 
     # ---- graph helpers
     def reach_from(self, start, cut_edges=(), cut_blocks=()):
-        cut_edges = set(cut_edges)
-        cut_blocks = set(cut_blocks)
-        seen = set()
-        st = [start]
-        while st:
-            x = st.pop()
-            if x in seen or x in cut_blocks:
-                continue
-            seen.add(x)
-            for s in self.b.succ[x]:
-                if (x, s) not in cut_edges:
-                    st.append(s)
-        return seen
+        """Blocks reachable from `start` (edges / blocks removed).  Bool temporaries set to constants on the
+        way (`matches!`, `let flag = ..`) are followed path-sensitively, so a test routed through a flag counts
+        like the test itself."""
+        return feasible_reach(self.b, start, cut_edges=cut_edges, cut_blocks=cut_blocks)
 
     def edge_dominates(self, edge, target):
         """Every path entry -> target uses the edge."""
@@ -194,3 +185,58 @@ def follow(f, bb):
         else:
             break
     return bb
+
+
+def emptiness_switches(f, is_collection, len_suffixes=("::len",), empty_suffixes=("::is_empty",)):
+    """Switches that test whether a collection is empty, in any spelling:
+    `c.is_empty()`, `c.len() == 0`, `0 == c.len()`, `c.len() != 0`, `c.len() > 0`, `c.len() >= 1`, `c.len() < 1`.
+    is_collection(expr) recognises the receiver.  -> [(bb, expr, empty_target, nonempty_target)]"""
+    out = []
+    for i in sorted(f.reach):
+        t = f.b.blocks[i]["term"]
+        if t["t"] != "switch":
+            continue
+        e = f.ex.operand(t["d"])
+        ed = f.switch_edges(i)
+        true_t, false_t = ed["else"], ed.get(0)
+        e2 = strip_ref(e)
+        if e2[0] == "call" and e2[1].endswith(empty_suffixes) and e2[2] and is_collection(e2[2][0]):
+            out.append((i, e, true_t, false_t))
+            continue
+        if e2[0] == "bin" and e2[1] in ("Eq", "Ne", "Gt", "Ge", "Lt", "Le"):
+            op, a, b = e2[1], strip_ref(e2[2]), strip_ref(e2[3])
+
+            def is_len(x):
+                return x[0] == "call" and x[1].endswith(len_suffixes) and x[2] and is_collection(x[2][0])
+            if is_len(b) and a[0] == "const":
+                a, b = b, a
+                op = {"Gt": "Lt", "Ge": "Le", "Lt": "Gt", "Le": "Ge"}.get(op, op)
+            if is_len(a) and b[0] == "const" and isinstance(b[1], int):
+                n = b[1]
+                if (op, n) in (("Eq", 0), ("Lt", 1), ("Le", 0)):
+                    out.append((i, e, true_t, false_t))
+                elif (op, n) in (("Ne", 0), ("Gt", 0), ("Ge", 1)):
+                    out.append((i, e, false_t, true_t))
+    return out
+
+
+def option_switches(f, pred):
+    """Switches that distinguish Some from None of an Option-valued expression X with pred(X):
+    `X.is_some()`, `X.is_none()`, and `match X` / `if let Some(..) = X` / `let Some(..) = X else`.
+    -> [(bb, X, some_target, none_target)]"""
+    out = []
+    for i in sorted(f.reach):
+        t = f.b.blocks[i]["term"]
+        if t["t"] != "switch":
+            continue
+        e = strip_ref(f.ex.operand(t["d"]))
+        ed = f.switch_edges(i)
+        if e[0] == "call" and e[1].endswith("Option::<T>::is_some") and pred(e[2][0]):
+            out.append((i, e[2][0], ed["else"], ed.get(0)))
+        elif e[0] == "call" and e[1].endswith("Option::<T>::is_none") and pred(e[2][0]):
+            out.append((i, e[2][0], ed.get(0), ed["else"]))
+        elif e[0] == "discr" and pred(e[1]):
+            v = f.tr.value(t["d"])
+            if v.kind == "rv" and v.rv["r"] == "discr" and ty_str(v.rv["of"]).startswith("core::option::Option<"):
+                out.append((i, e[1], ed[1] if 1 in ed else ed["else"], ed[0] if 0 in ed else ed["else"]))
+    return out
